@@ -279,7 +279,11 @@ func (r *Reporter) Finish(level, rule string, replay func(raw []byte) (bool, str
 				status = " replay-unstable"
 			}
 		}
-		fmt.Printf("VIOLATION property=%s replay=%s sig=%s cases=%d%s detail=%s\n", r.ID, path, s, v.Count, status, trunc(v.Detail, 600))
+		if nv <= 25 {
+			fmt.Printf("VIOLATION property=%s replay=%s sig=%s cases=%d%s detail=%s\n", r.ID, path, s, v.Count, status, trunc(v.Detail, 400))
+		} else if nv == 26 {
+			fmt.Printf("... further violation signatures are not printed; every one has a replay file under %s\n", dir)
+		}
 		exit = 1
 	}
 	for i, k := range known {
